@@ -38,6 +38,7 @@ func init() {
 		"verifConcrete": inVerifConcrete,
 		"verifSymbolic": func(w *Worker, fr *frame, fn *ssa.Function, args []Value) Value { return true },
 		"verifItoa":     inItoa,
+		"verifHasPrefix": inStringsHasPrefix,
 		"verifGlobalsUnchanged": inVerifGlobals,
 	}
 	intrinsics = map[string]intrinsic{
@@ -372,12 +373,13 @@ func inStringsToUpper(w *Worker, fr *frame, fn *ssa.Function, args []Value) Valu
 
 func inStringsHasPrefix(w *Worker, fr *frame, fn *ssa.Function, args []Value) Value {
 	s, p := args[0].(Str), args[1].(Str)
-	if s.opaque || p.opaque {
+	if p.opaque || (s.opaque && len(s.b) < len(p.b)) {
 		unsupported("HasPrefix on opaque")
 	}
 	if len(s.b) < len(p.b) {
 		return false
 	}
+	s.opaque = false
 	return w.strEq(s.Slice(0, len(p.b)), p)
 }
 
@@ -428,7 +430,7 @@ func bufField(w *Worker, fr *frame, recv Value) *Value {
 func bufAppendStr(w *Worker, fr *frame, recv Value, s Str) {
 	f := bufField(w, fr, recv)
 	if s.opaque {
-		// mark buffer as opaque by storing a Str marker
+		// buffer becomes opaque: keep it as a Str
 		cur := bufContent(*f)
 		*f = concatStr(cur, s)
 		return
@@ -705,9 +707,7 @@ func (w *Worker) format(fr *frame, f Str, args Slice) Str {
 	for i := 0; i < len(format); i++ {
 		c := format[i]
 		if c != '%' {
-			sb.b = append(sb.b, c)
-			sb.t = append(sb.t, nil)
-			sb.minLen++
+			sb.addByte(int64(c))
 			continue
 		}
 		i++
